@@ -18,6 +18,7 @@ func init() {
 	verifRegister("VerifC14_KWhen", VerifC14_KWhen)
 	verifRegister("VerifC14_KTruthy", VerifC14_KTruthy)
 	verifRegister("VerifC14_KAny", VerifC14_KAny)
+	verifRegister("VerifC14_KTypes", VerifC14_KTypes)
 }
 
 var c14Env *lisp.LEnv
@@ -49,6 +50,7 @@ func VerifC14_KKeys_Setup()      { c14Setup() }
 func VerifC14_KWhen_Setup()      { c14Setup() }
 func VerifC14_KTruthy_Setup()    { c14Setup() }
 func VerifC14_KAny_Setup()       { c14Setup() }
+func VerifC14_KTypes_Setup()     { c14Setup() }
 
 func c14Load(env *lisp.LEnv, src string) *lisp.LVal { return env.LoadString("c14", src) }
 
@@ -577,5 +579,59 @@ func VerifC14_KAny() {
 	vAssert(!lisp.IsInternalPanic(got), "no constraint panics the host on any value: "+got.String())
 	v := c14Verdict(got)
 	vAssert(v == "ok" || v == WrongType || v == FailedConstraint, "the verdict is success, wrong-type or failed-constraint: "+v)
+	vCover("end")
+}
+
+
+// The type matrix: every documented type name against a value of every kind.  s:validate succeeds
+// exactly when the value HAS the declared type (a string spelling "true" is a string, not a bool),
+// and otherwise signals wrong-type; s:is-true / s:is-false accept exactly the booleans true / false.
+func VerifC14_KTypes() {
+	env := c14Setup()
+	types := []string{"string", "int", "float", "number", "bool", "array", "sorted-map", "fun", "any"}
+	//                 0 int 1 float 2 string 3 "true" 4 "false" 5 true 6 false 7 nil 8 symbol 9 vector 10 list 11 map 12 bytes 13 lambda 14 keyword-ish string ""
+	vals := []string{"x", "f", "\"s\"", "\"true\"", "\"false\"", "true", "false", "()", "'sym", "(vector 1)", "(list 1)", "(sorted-map \"a\" 1)", "(to-bytes \"b\")", "(lambda (e) e)", "\"\""}
+	has := map[string][]int{
+		"string": {2, 3, 4, 14}, "int": {0}, "float": {1}, "number": {0, 1}, "bool": {5, 6},
+		"array": {9}, "sorted-map": {11}, "fun": {13},
+	}
+	ti := vConcInt(vndChoice("type", len(types)))
+	vi := vConcInt(vndChoice("value", len(vals)))
+	env.PutGlobal(lisp.Symbol("x"), lisp.Int(vndInt("x")))
+	fl := vndFloat64("f")
+	vAssume(fl == fl)
+	env.PutGlobal(lisp.Symbol("f"), lisp.Float(fl))
+	r := c14Load(env, "(set 'tv (s:make-validator \"t\" \""+types[ti]+"\")) (set 'it (s:make-validator \"t\" \"any\" (s:is-true))) (set 'if (s:make-validator \"t\" \"any\" (s:is-false)))")
+	vAssert(r.Type != lisp.LError, "schemas build: "+c14Verdict(r))
+	got := c14Verdict(c14Load(env, "(s:validate tv "+vals[vi]+")"))
+	vObserve("case", types[ti]+" on "+vals[vi])
+	want := types[ti] == "any"
+	for _, k := range has[types[ti]] {
+		if k == vi {
+			want = true
+		}
+	}
+	// lists: the reference does not say whether a list is an "array"; () as a value of a type: undocumented
+	if !(types[ti] == "array" && (vi == 10 || vi == 7)) && !(vi == 7 && types[ti] != "any") {
+		if want {
+			vAssert(got == "ok", "a value of the declared type validates: "+types[ti]+" on "+vals[vi]+" gave "+got)
+		} else if vKnown("C14-bool-accepts-true-false-strings", types[ti] == "bool" && (vi == 3 || vi == 4) && got == "ok") {
+			return
+		} else {
+			vAssert(got == WrongType, "a value of another type is wrong-type: "+types[ti]+" on "+vals[vi]+" gave "+got)
+		}
+	}
+	gt := c14Verdict(c14Load(env, "(s:validate it "+vals[vi]+")"))
+	gf := c14Verdict(c14Load(env, "(s:validate if "+vals[vi]+")"))
+	if vi == 5 {
+		vAssert(gt == "ok" && gf == FailedConstraint, "true satisfies s:is-true and fails s:is-false")
+	} else if vi == 6 {
+		vAssert(gf == "ok" && gt == FailedConstraint, "false satisfies s:is-false and fails s:is-true")
+	} else if vKnown("C14-bool-accepts-true-false-strings", (vi == 3 && gt == "ok" && gf == FailedConstraint) || (vi == 4 && gf == "ok" && gt == FailedConstraint)) {
+		return
+	} else {
+		vAssert(gt == FailedConstraint, "only the boolean true satisfies s:is-true: "+vals[vi]+" gave "+gt)
+		vAssert(gf == FailedConstraint, "only the boolean false satisfies s:is-false: "+vals[vi]+" gave "+gf)
+	}
 	vCover("end")
 }
